@@ -45,10 +45,10 @@ def instances(ctx):
     else:
         flood = dict(maxclock=6, w=2, ttl=2, cap=1, genuine={"a": 3, "b": 0, "c": 5}, forged=["f"], local=[],
                      keymodes=[True], paths=["sleep", "wake"], peers=["p1", "p2"], newpeers=[], maint=True)
-        aux = dict(maxclock=4, w=2, ttl=2, cap=2, genuine={"a": 1, "b": 3}, forged=["f"], local=["a"],
+        aux = dict(maxclock=3, w=2, ttl=2, cap=1, genuine={"a": 1}, forged=["f"], local=["a"],
                    keymodes=[True, False], paths=["sleep", "wake"], peers=["p1", "p2"], newpeers=["n1"], maint=True)
-        agent = dict(maxclock=0, w=2, ttl=2, cap=100, genuine={"a": 0, "b": 2, "c": 3, "d": -3, "e": -2},
-                     forged=["f", "g"], local=[], keymodes=[True, False],
+        agent = dict(maxclock=0, w=2, ttl=2, cap=100, genuine={"a": 0, "b": 2, "c": 3, "d": -3},
+                     forged=["f"], local=[], keymodes=[True],
                      paths=["sleep", "wake", "qsleep", "qwake"], peers=["p1", "p2"], newpeers=["n1"], maint=False)
     return {"flood": flood, "aux": aux, "agent": agent}
 
@@ -251,22 +251,44 @@ def cover(edges, max_len=150):
     if not inits:
         raise vf.Infra("cover: no initial state")
     pred, order = {k: None for k in inits}, list(inits)
-    q = list(inits)
-    while q:
-        nq = []
-        for u in q:
-            for e, v in out.get(u, []):
-                if v not in pred:
-                    pred[v] = (u, e)
-                    nq.append(v)
-                    order.append(v)
-        q = nq
+
+    def bfs(q):
+        while q:
+            nq = []
+            for u in q:
+                for e, v in out.get(u, []):
+                    if v not in pred:
+                        pred[v] = (u, e, None)
+                        nq.append(v)
+                        order.append(v)
+            q = nq
+    bfs(list(inits))
+    # states reachable only through a nondeterministic step: such a step may appear inside a prefix (with its alts);
+    # the paths behind it are replicated, the real code decides which replica gets through
+    nd_out = {}
+    for ks, es in nondet:
+        nd_out.setdefault(ks, []).append(es)
+    grown = True
+    while grown:
+        grown = False
+        for u in list(order):
+            for es in nd_out.get(u, []):
+                for e in es:
+                    v = vf.canon(e["t"])
+                    if v not in pred:
+                        pred[v] = (u, e, [x["t"] for x in es])
+                        order.append(v)
+                        bfs([v])
+                        grown = True
 
     def prefix(k):
         steps = []
         while pred[k] is not None:
-            u, e = pred[k]
-            steps.append({"a": e["a"], "t": e["t"]})
+            u, e, alts = pred[k]
+            st = {"a": e["a"], "t": e["t"]}
+            if alts:
+                st["alts"] = alts
+            steps.append(st)
             k = u
         steps.reverse()
         return k, steps
@@ -336,6 +358,15 @@ def cover(edges, max_len=150):
         steps.append({"a": es[0]["a"], "t": es[0]["t"], "alts": [e["t"] for e in es]})
         paths.append({"label": "cover", "init": nodes[init], "steps": steps})
         nedges += len(es)
+    # replicate the paths that pass a nondeterministic step before their last one
+    grp, extra = 0, []
+    for p in paths:
+        if any("alts" in x for x in p["steps"][:-1]):
+            grp += 1
+            p["grp"] = grp
+            for _ in range(2):
+                extra.append(dict(p))
+    paths.extend(extra)
     return paths, len(nodes), nedges, len(nondet)
 
 
@@ -577,6 +608,8 @@ def judge(ctx, pid, level, inst, paths, recs, devrel, stats, pr=proj, cex=False)
         if "alts" in step and vf.canon(rec["real_t"]) in [vf.canon(pr(t)) for t in step["alts"]] \
                 and rec.get("real_res", "") == rec.get("spec_res", ""):
             stats["alts"] += 1          # another admissible outcome of a nondeterministic step
+            if si < len(path["steps"]) - 1:
+                stats["cut"].setdefault((level, path.get("grp")), []).append(pi)
             continue
         s = pre_state(path, si)
         if not s["key"]:
@@ -619,7 +652,7 @@ def real_paths(edges):
 def run(ctx, pid):
     insts = instances(ctx)
     m = model(ctx, insts)
-    stats = {"alts": 0, "mismatches": 0, "by_key": {}, "cex_reproduced": {}, "nokey": []}
+    stats = {"alts": 0, "mismatches": 0, "by_key": {}, "cex_reproduced": {}, "nokey": [], "cut": {}}
     plans = {}
     for name in insts:
         paths, nnodes, nedges, nnondet = cover(m["rel"][name].edges)
@@ -646,6 +679,16 @@ def run(ctx, pid):
             steps += 0 if cex else out[name][1]
             judge(ctx, pid, "agent" if name == "agent" else "flooder", insts[name], plans[name]["paths"], recs,
                   m["rel"][name], stats, proj_agent if name == "agent" else proj, cex)
+    lost = 0
+    for (level, grp), cut in stats["cut"].items():
+        name = "agent" if level == "agent" else None
+        for n in plans:
+            if (n == "agent") == (level == "agent"):
+                total = len([p for p in plans[n]["paths"] if p.get("grp") == grp and grp is not None])
+                if total and len(cut) >= total:
+                    lost += 1
+    stats["nondet_lost"] = lost
+    del stats["cut"]
     if out["trace"].get("finding"):
         ctx.finding(*out["trace"]["finding"])
     if stats["nokey"] and not stats["by_key"] and not stats["cex_reproduced"]:
@@ -682,7 +725,8 @@ def check(ctx, pid):
             "observed by its size only, sleep-manager callbacks replaced by counters except in the 'real' paths",
             "the agent's clock is assumed not to jump",
         ],
-        states=states, transitions=edges, traces_validated_against_impl=npaths, exhaustive=True,
+        states=states, transitions=edges, traces_validated_against_impl=npaths, exhaustive=(stats["nondet_lost"] == 0),
+        paths_lost_to_nondeterministic_eviction=stats["nondet_lost"],
         replayed_steps=steps, replayed_paths={n: len(p["paths"]) for n, p in plans.items()},
         model={n: {"generated": m["ideal"][n].generated, "distinct": m["ideal"][n].distinct, "edges": plans[n]["edges"],
                    "nodes": plans[n]["nodes"], "nondeterministic_steps": plans[n]["nondet"]} for n in insts},
